@@ -596,3 +596,97 @@ func joinStrings(xs []string, sep string) string {
 	}
 	return out
 }
+
+// ---------------------------------------------------------------- KIND.PREDICATES
+
+func init() {
+	register(&Rule{Name: "KIND.PREDICATES", Props: []string{"C04", "C08", "C12"}, Floor: 6,
+		Doc: "the predicates of Entry (IsLeaf, IsLeafList, IsList, IsContainer, IsChoice, IsCase) answer for every shape of entry the tree builder makes — kind, list attributes or none, a child map or none — what their names say: each is evaluated over those shapes",
+		Run: ruleKindPredicates})
+}
+
+func ruleKindPredicates(c *Ctx) []Obligation {
+	const R = "KIND.PREDICATES"
+	entry := c.Named("yang", "Entry")
+	if entry == nil {
+		return []Obligation{undecided(R, "entry predicates", "-", "Entry not found")}
+	}
+	fKind, fListAttr, fDir := FieldVar(entry, "Kind"), FieldVar(entry, "ListAttr"), FieldVar(entry, "Dir")
+	names, _ := c.entryKinds()
+	val := map[string]int64{}
+	for v, n := range names {
+		val[n] = v
+	}
+	if fKind == nil || fListAttr == nil || fDir == nil || len(val) < 5 {
+		return []Obligation{undecided(R, "entry predicates", "-", "Entry.Kind / ListAttr / Dir / the EntryKind constants not found")}
+	}
+	// the shapes ToEntry makes: (kind, has list attributes, has a child map) and what they are
+	type shape struct {
+		kind      string
+		list, dir bool
+		is        string
+	}
+	shapes := []shape{
+		{"LeafEntry", false, false, "leaf"},
+		{"LeafEntry", true, false, "leaf-list"},
+		{"DirectoryEntry", true, true, "list"},
+		{"DirectoryEntry", false, true, "container"},
+		{"ChoiceEntry", false, true, "choice"},
+		{"CaseEntry", false, true, "case"},
+		{"AnyDataEntry", false, false, "anydata"},
+		{"AnyXMLEntry", false, false, "anyxml"},
+		{"InputEntry", false, true, "input"},
+		{"OutputEntry", false, true, "output"},
+		{"NotificationEntry", false, true, "notification"},
+	}
+	var obs []Obligation
+	for _, pr := range []struct{ method, is string }{
+		{"IsLeaf", "leaf"}, {"IsLeafList", "leaf-list"}, {"IsList", "list"}, {"IsContainer", "container"}, {"IsChoice", "choice"}, {"IsCase", "case"},
+	} {
+		fn := c.Fn("yang.(*Entry)." + pr.method)
+		con := fmt.Sprintf("(*Entry).%s holds exactly for a %s", pr.method, pr.is)
+		if fn == nil || len(fn.Params) == 0 {
+			obs = append(obs, undecided(R, con, "-", "method not found"))
+			continue
+		}
+		var wrong []string
+		n := 0
+		for _, sh := range shapes {
+			kv, has := val[sh.kind]
+			if !has {
+				continue
+			}
+			n++
+			k := &kindFacts{c: c, fKind: fKind, fListAttr: fListAttr, kind: kv, listAttr: sh.list,
+				zero:     map[*types.Var]tri{fDir: triOf(!sh.dir)},
+				isTarget: func(ssa.Value) bool { return false }}
+			got := k.evalPredicate(fn, 0)
+			want := triOf(sh.is == pr.is)
+			switch {
+			case got == triUnknown:
+				wrong = append(wrong, "undecided for a "+sh.is)
+			case got != want && want == triTrue:
+				wrong = append(wrong, "false for a "+sh.is)
+			case got != want:
+				wrong = append(wrong, "true for a "+sh.is)
+			}
+		}
+		switch {
+		case len(wrong) == 0:
+			obs = append(obs, ok(R, con, c.Pos(fn.Pos()), fmt.Sprintf("evaluated for the %d shapes of entry the builder makes", n)))
+		default:
+			und := true
+			for _, w := range wrong {
+				if len(w) < 9 || w[:9] != "undecided" {
+					und = false
+				}
+			}
+			if und {
+				obs = append(obs, undecided(R, con, c.Pos(fn.Pos()), "the predicate is written in terms this evaluation does not read: "+joinStrings(wrong, ", ")))
+			} else {
+				obs = append(obs, bad(R, con, c.Pos(fn.Pos()), "the predicate is "+joinStrings(wrong, ", ")+": everything that branches on it (deviation checks, default handling, printing, clients) takes one kind of node for another"))
+			}
+		}
+	}
+	return obs
+}
